@@ -265,7 +265,9 @@ std::string crashHeadline(const std::string &err) {
 }
 
 void runCase(const vh::Args &a, long k, int klass) {
-    c12ops::installHook();        // stage dumps of HyperedgeImprover::execute, if the library has the hook
+    // stage dumps of HyperedgeImprover::execute, if the library has the hook (thorough tier: every third
+    // scene, the dumps are bulky)
+    if (a.tier != "thorough" || k % 3 == 0) c12ops::installHook();
     vh::Rng r = vh::caseRng(a.seed, k);
     // ---- choose the configuration
     // 13 classes: {no full rerouting at first, rerouting registered by junction} x {improvement off,
